@@ -41,6 +41,7 @@ def main (args : List String) : IO UInt32 := do
       | "c20" => Driver.C20.run ops impl
       | "c12" => Driver.C12.run ops impl
       | "c05" => Driver.C05.run ops impl
+      | "c07-tree" => Driver.C05.runC07 ops impl
       | "admission" => Driver.Admission.run ops impl
       | "exitrace" => Driver.ExitRace.run ops impl
       | "c19" => Driver.C19.run ops impl
